@@ -44,6 +44,10 @@ func Load(opts *LoaderOptions) (*types.Project, error) {
 	if err != nil {
 		return nil, err
 	}
+	if mergedProject.LogLength == 0 {
+		// the default applies when no file sets it: a default per file would override an earlier file's value
+		mergedProject.LogLength = defaultLogLength
+	}
 	mergedProject.FileNames = opts.FileNames
 	mergedProject.EnvFileNames = opts.EnvFileNames
 	mergedProject.IsTuiDisabled = opts.isTuiDisabled || mergedProject.IsTuiDisabled
@@ -141,9 +145,7 @@ func loadProjectFromFile(inputFile string, opts *LoaderOptions) (*types.Project,
 	temp = os.ExpandEnv(temp)
 	temp = strings.ReplaceAll(temp, envEscaped, "$")
 
-	project := &types.Project{
-		LogLength: defaultLogLength,
-	}
+	project := &types.Project{}
 	err = yaml.Unmarshal([]byte(temp), project)
 	if err != nil {
 		if opts.IsInternalLoader {
@@ -154,9 +156,7 @@ func loadProjectFromFile(inputFile string, opts *LoaderOptions) (*types.Project,
 	if project.DisableEnvExpansion {
 		// parse the raw text into a fresh project: yaml merges into existing maps, so the keys
 		// of the expanded text would survive next to the raw ones
-		project = &types.Project{
-			LogLength: defaultLogLength,
-		}
+		project = &types.Project{}
 		err = yaml.Unmarshal(yamlFile, project)
 		if err != nil {
 			if opts.IsInternalLoader {
